@@ -364,7 +364,14 @@ func runRoundTrip(c *core.Ctx) {
 	if !fastq {
 		shift = 33
 	}
-	obioptions.SetInputQualityShift(shift)
+	// the offset declared for the *input* of the process is independent of the one the writer must
+	// use (obiconvert --solexa: input 64, output 33): half of the FASTQ groups run with the two
+	// process-wide offsets different; the text is always read back with the writer's offset
+	inGlobal := shift
+	if fastq && (c.Idx/8)%2 == 1 {
+		inGlobal = 97 - shift
+	}
+	obioptions.SetInputQualityShift(inGlobal)
 	obioptions.SetOutputQualityShift(shift)
 	defer obioptions.SetInputQualityShift(33)
 	defer obioptions.SetOutputQualityShift(33)
@@ -385,7 +392,7 @@ func runRoundTrip(c *core.Ctx) {
 		} else {
 			text = obiformats.FormatFasta(s, obiformats.FormatFastSeqJsonHeader) + "\n"
 		}
-		det := map[string]any{"record": r, "fastq": fastq, "quality_shift": shift, "header_parser": map[bool]string{true: "guessed", false: "json"}[guessed], "written": text}
+		det := map[string]any{"record": r, "fastq": fastq, "quality_shift": shift, "process_input_shift": inGlobal, "header_parser": map[bool]string{true: "guessed", false: "json"}[guessed], "written": text}
 		parse := func(txt string) (*obiseq.BioSequence, string) {
 			var parser obiformats.SeqFileChunkParser
 			if fastq {
@@ -429,7 +436,7 @@ func runRoundTrip(c *core.Ctx) {
 			cause = "definition"
 		}
 		if cause == "" && fastq && !bytes.Equal(back.Qualities(), r.Qual) {
-			cause = fmt.Sprintf("quality:shift%d", shift)
+			cause = fmt.Sprintf("quality:out%d-in%d", shift, inGlobal)
 		}
 		if cause == "" {
 			got := back.Annotations()
